@@ -198,6 +198,15 @@ func main() {
 	flag.Parse()
 	debug.SetPanicOnFault(true)
 	rep = &Report{Engine: *flagEngine, Seed: *flagSeed, Tier: *flagTier, Shard: *flagShard, Props: map[string]*PropReport{}}
+	if *flagEngine == "listtypes" {
+		var names []string
+		for _, s := range subjectsForShard() {
+			names = append(names, string(s.FullName))
+		}
+		b, _ := json.Marshal(map[string]interface{}{"types": names})
+		os.Stdout.Write(b)
+		return
+	}
 	f := engines[*flagEngine]
 	if f == nil {
 		names := []string{}
